@@ -3,7 +3,7 @@
 CONSTANTS
   MaxStarts = 1
   MaxDrops = 1
-  MaxDups = 0
+  MaxDups = 1
   TieBreak = FALSE
   RoleByAddress = FALSE
 INIT Init
